@@ -18,7 +18,7 @@ INTERNAL = "packet::Packet::to_bytes_internal"
 
 
 def check(env, rep, tier):
-    configs = ["default"] if tier == "quick" else ["default", "nodefault", "udp"]
+    configs = ["default", "udp"] if tier == "quick" else ["default", "nodefault", "udp"]     # MAX_SIZE is feature-dependent: both values on every change
     rep.configs = configs
     for cfg in configs:
         prog = env.prog(cfg)
